@@ -438,3 +438,211 @@ Proof.
   { unfold bad_named. rewrite filter_none_nat; [reflexivity|]. intros i J. apply in_seq in J. rewrite ALL by lia. reflexivity. }
   split; [exact B0|]. split; [pose proof (measure_sum st'); lia|]. split; [rewrite H3; exact LH | exact A3].
 Qed.
+
+(* ------------------------------------------------------------------ detection after a leader change, then the attempt *)
+From BLB Require Import Cluster.Model.
+From BLB Require C04.RSModel.
+Local Open Scope nat_scope.
+
+Lemma ins_in : forall x y l, In y (insert_sorted x l) <-> y = x \/ In y l.
+Proof.
+  induction l as [|a l IH]; cbn; [intuition|].
+  destruct (x <? a)%Z; [cbn; intuition|]. destruct (x =? a)%Z eqn:Q; [apply Z.eqb_eq in Q; subst; cbn; intuition|].
+  cbn. rewrite IH. intuition.
+Qed.
+Lemma sortedz_in : forall y l, In y (fold_right insert_sorted [] l) <-> In y l.
+Proof. induction l as [|a l IH]; cbn; [tauto|]. rewrite ins_in, IH. intuition. Qed.
+
+Lemma scrub_fields : forall st i, r_hosts (rstep st (EScrub i)) = r_hosts st /\ r_pc (rstep st (EScrub i)) = r_pc st /\
+  r_att (rstep st (EScrub i)) = r_att st /\ r_down (rstep st (EScrub i)) = r_down st /\ r_m (rstep st (EScrub i)) = r_m st /\
+  (forall j, In j (r_cor (rstep st (EScrub i))) <-> In j (r_cor st) \/ (j = i /\ i < length (r_hosts st) /\ intact_at (r_pc st) (r_hosts st) i = false)).
+Proof.
+  intros st i. cbn [rstep]. destruct (Nat.ltb i (length (r_hosts st)) && negb (intact_at (r_pc st) (r_hosts st) i)) eqn:Cnd.
+  - apply andb_true_iff in Cnd as [L T]. apply Nat.ltb_lt in L. apply negb_true_iff in T. cbn.
+    split; [reflexivity|]. split; [reflexivity|]. split; [reflexivity|]. split; [reflexivity|]. split; [reflexivity|].
+    intros j. split.
+    + intros [X|X]; [right; subst; auto | left; exact X].
+    + intros [X|(X & _)]; [right; exact X | left; subst; reflexivity].
+  - split; [reflexivity|]. split; [reflexivity|]. split; [reflexivity|]. split; [reflexivity|]. split; [reflexivity|].
+    intros j. split; [intro X; left; exact X|]. intros [X|(_ & L & T)]; [exact X|]. exfalso.
+    apply Nat.ltb_lt in L. rewrite L, T in Cnd. discriminate Cnd.
+Qed.
+
+Lemma scrub_all : forall l st, let st' := rrun st (map EScrub l) in
+  r_hosts st' = r_hosts st /\ r_pc st' = r_pc st /\ r_att st' = r_att st /\ r_down st' = r_down st /\ r_m st' = r_m st /\
+  (forall j, In j (r_cor st') <-> In j (r_cor st) \/ (In j l /\ j < length (r_hosts st) /\ intact_at (r_pc st) (r_hosts st) j = false)).
+Proof.
+  induction l as [|i l IH]; intros st; cbn [map rrun].
+  - repeat split; auto. intros [X|(X & _)]; [exact X | destruct X].
+  - destruct (scrub_fields st i) as (H1 & P1 & A1 & D1 & M1 & C1). destruct (IH (rstep st (EScrub i))) as (H2 & P2 & A2 & D2 & M2 & C2).
+    cbv zeta. split; [congruence|]. split; [congruence|]. split; [congruence|]. split; [congruence|]. split; [congruence|].
+    intros j. rewrite C2, C1, H1, P1. cbn [In]. intuition (subst; auto).
+Qed.
+
+Lemma existsb_nat : forall i l, existsb (Nat.eqb i) l = true <-> In i l.
+Proof. intros i l. rewrite existsb_exists. split; [intros (x & I & E); apply Nat.eqb_eq in E; now subst | intro I; exists i; split; auto; apply Nat.eqb_refl]. Qed.
+
+Definition heal_run (L : nat) (newids : list N) (incs : nat) : list rev :=
+  ELeader :: map EScrub (seq 0 L) ++ [EDetect] ++ repair_run newids incs.
+
+Definition plain (ev : rev) : bool := match ev with EFault _ _ _ => false | EDeliver _ => false | _ => true end.
+Lemma plain_ok : forall evs st, forallb plain evs = true -> rs_ok_run rs_ok_ev st evs = true.
+Proof.
+  induction evs as [|ev evs IH]; intros st H; [reflexivity|]. cbn in H. apply andb_true_iff in H as [H1 H2]. cbn.
+  rewrite IH by exact H2. destruct ev; try discriminate H1; reflexivity.
+Qed.
+
+Theorem heal_repairs : forall st newids incs,
+  Inv st -> NoDup (r_hosts st) -> length (r_hosts st) = r_n st + r_m st ->
+  0 < bad_named st -> fresh (r_hosts st) newids = true -> distinctN newids = true -> length newids = bad_named st -> 0 < incs ->
+  let evs := heal_run (length (r_hosts st)) newids incs in
+  let st' := rrun st evs in
+  rs_ok_run rs_ok_ev st evs = true /\ forallb plain evs = true /\
+  bad_named st' = 0 /\ intact_named st' = r_n st + r_m st /\ r_att st' = None.
+Proof.
+  intros st newids incs I ND LH BN F DN LN LI evs st'.
+  assert (Q1 : forall l, forallb plain (map EScrub l) = true) by (induction l; cbn; auto).
+  assert (Q2 : forall k, forallb plain (repeat (EInc false false) k) = true) by (induction k; cbn; auto).
+  assert (PL : forallb plain evs = true).
+  { unfold evs, heal_run, repair_run. cbn [forallb plain andb]. rewrite forallb_app, Q1. cbn [app forallb plain andb].
+    rewrite forallb_app, Q2. reflexivity. }
+  pose proof (plain_ok evs st PL) as OK. split; [exact OK|]. split; [exact PL|].
+  (* the states along the prefix *)
+  set (s1 := rstep st ELeader).
+  set (s2 := rrun s1 (map EScrub (seq 0 (length (r_hosts st))))).
+  set (s3 := rstep s2 EDetect).
+  assert (SPLIT : st' = rrun s3 (repair_run newids incs)).
+  { unfold st', evs, heal_run. cbn [rrun]. fold s1. rewrite rrun_app. fold s2. reflexivity. }
+  assert (I3 : Inv s3).
+  { assert (OK3 : rs_ok_run rs_ok_ev st (ELeader :: map EScrub (seq 0 (length (r_hosts st))) ++ [EDetect]) = true).
+    { apply plain_ok. cbn [forallb plain andb]. rewrite forallb_app, Q1. reflexivity. }
+    pose proof (Inv_run _ st I OK3) as X. cbn [rrun] in X. fold s1 in X. rewrite rrun_app in X. exact X. }
+  destruct (scrub_all (seq 0 (length (r_hosts st))) s1) as (H2 & P2 & A2 & D2 & M2 & C2). fold s2 in H2, P2, A2, D2, M2, C2.
+  change (r_hosts s1) with (r_hosts st) in *. change (r_pc s1) with (r_pc st) in *. change (r_att s1) with (@None att) in *.
+  change (r_down s1) with (@nil N) in *. change (r_cor s1) with (@nil nat) in *. change (r_m s1) with (r_m st) in *.
+  assert (COR : forall j, j < length (r_hosts st) -> existsb (Nat.eqb j) (r_cor s2) = negb (intact_at (r_pc st) (r_hosts st) j)).
+  { intros j Lj. destruct (intact_at (r_pc st) (r_hosts st) j) eqn:T; cbn.
+    - destruct (existsb (Nat.eqb j) (r_cor s2)) eqn:X; [|reflexivity]. apply existsb_nat in X. apply C2 in X as [[]|(_ & _ & Y)]. congruence.
+    - apply existsb_nat. apply C2. right. split; [apply in_seq; lia|]. auto. }
+  (* what the detect round computes *)
+  set (bidx := filter (fun i => negb (intact_at (r_pc st) (r_hosts st) i)) (seq 0 (length (r_hosts st)))).
+  set (badz := map (fun i => nth i (map Z.of_N (r_hosts st)) 0%Z) bidx).
+  assert (DB : detect_bad s2 = 1%Z :: Z.of_nat (length badz) :: fold_right insert_sorted [] badz).
+  { unfold detect_bad, C04.RSModel.rs_chunk_task_of. rewrite H2, D2, M2. cbn [map]. rewrite (map_length Z.of_N (r_hosts st)).
+    assert (FE : filter (fun i => zmem (nth i (map Z.of_N (r_hosts st)) 0%Z) [] || existsb (Nat.eqb i) (r_cor s2)) (seq 0 (length (r_hosts st))) = bidx).
+    { unfold bidx. apply filter_ext_in. intros i J. apply in_seq in J. cbn [zmem existsb orb]. apply COR. lia. }
+    rewrite FE. fold badz.
+    assert (LB : length badz = bad_named st) by (unfold badz; rewrite map_length; reflexivity).
+    assert (X1 : Nat.eqb (length badz) 0 = false) by (apply Nat.eqb_neq; lia). rewrite X1.
+    assert (X2 : Nat.ltb (r_m st) (length badz) = false).
+    { apply Nat.ltb_ge. rewrite LB. pose proof (measure_sum st). pose proof (safe_named st (i_safe st I)). lia. }
+    rewrite X2. reflexivity. }
+  set (bad := map Z.to_N (fold_right insert_sorted [] badz)).
+  assert (S3 : r_task s3 = Some bad /\ r_att s3 = None /\ r_hosts s3 = r_hosts st /\ r_pc s3 = r_pc st).
+  { unfold s3. cbn [rstep]. rewrite A2, DB. cbn. rewrite H2, P2. auto. }
+  destruct S3 as (T3 & A3 & H3 & P3).
+  assert (EX : forall i, i < length (r_hosts s3) -> memN (nth i (r_hosts s3) 0%N) bad = negb (intact_at (r_pc s3) (r_hosts s3) i)).
+  { rewrite H3, P3. intros i Li.
+    assert (IFF : In (nth i (r_hosts st) 0%N) bad <-> In i bidx).
+    { unfold bad. rewrite in_map_iff. split.
+      - intros (z & E & J). apply (proj1 (sortedz_in _ _)) in J. unfold badz in J. apply in_map_iff in J as (k & Ek & Jk). subst z.
+        assert (Lk : k < length (r_hosts st)) by (unfold bidx in Jk; apply filter_In in Jk as [Jk _]; apply in_seq in Jk; lia).
+        change 0%Z with (Z.of_N 0%N) in E. rewrite map_nth, N2Z.id in E.
+        assert (k = i) by (apply (proj1 (NoDup_nth (r_hosts st) 0%N) ND); auto). subst k. exact Jk.
+      - intros J. exists (Z.of_N (nth i (r_hosts st) 0%N)). split; [apply N2Z.id|]. apply (proj2 (sortedz_in _ _)). unfold badz. apply in_map_iff.
+        exists i. split; [|exact J]. change 0%Z with (Z.of_N 0%N). apply map_nth. }
+    destruct (intact_at (r_pc st) (r_hosts st) i) eqn:T; cbn.
+    - destruct (memN (nth i (r_hosts st) 0%N) bad) eqn:M; [|reflexivity]. apply memN_in in M. apply IFF in M.
+      unfold bidx in M. apply filter_In in M as [_ M]. rewrite T in M. discriminate.
+    - apply memN_in. apply IFF. unfold bidx. apply filter_In. split; [apply in_seq; lia | now rewrite T]. }
+  assert (BN3 : bad_named s3 = bad_named st) by (unfold bad_named; rewrite H3, P3; reflexivity).
+  destruct (attempt_repairs s3 bad newids incs I3 A3 T3 EX) as (B0 & IN & LL & AT); try (rewrite ?BN3, ?H3; auto).
+  rewrite <- SPLIT in B0, IN, LL, AT. split; [exact B0|]. split; [rewrite IN, LL, H3; exact LH | exact AT].
+Qed.
+
+Lemma m_const : forall st ev, r_m (rstep st ev) = r_m st.
+Proof.
+  intros st ev. destruct ev; cbn; try reflexivity;
+  repeat match goal with |- context [match ?x with _ => _ end] => destruct x end; reflexivity.
+Qed.
+Lemma m_run : forall evs st, r_m (rrun st evs) = r_m st.
+Proof. induction evs as [|ev evs IH]; intros st; [reflexivity|]. cbn. rewrite IH. apply m_const. Qed.
+
+(* ------------------------------------------------------------------ property-level statements *)
+Definition reach (n m : nat) (hosts : list N) (evs : list rev) : rs := rrun (rs_init n m hosts) evs.
+
+Lemma rs_no_loss_run : forall n m hosts evs, n <= length hosts ->
+  rs_ok_run rs_ok_ev (rs_init n m hosts) evs = true ->
+  let st := reach n m hosts evs in
+  n <= intact_named st /\
+  (forall ev, is_fault ev = false -> rs_ok_ev st ev = true -> n <= intact_named (rstep st ev)) /\
+  (forall a, r_att st = Some a -> a_left a = 0 ->
+     let st' := rstep st ECommit in
+     r_hosts st' = p_hosts (a_plan a) /\ length (r_hosts st') = length (r_hosts st) /\
+     forall i, i < length (r_hosts st) ->
+       nth i (r_hosts st') 0%N = nth i (r_hosts st) 0%N \/
+       r_pc st' (nth i (r_hosts st') 0%N) i = Some Intact \/ In (nth i (r_hosts st') 0%N, i) (a_hit a)) /\
+  (forall ev, r_hosts (rstep st ev) <> r_hosts st -> ev = ECommit).
+Proof.
+  intros n m hosts evs L OK st. destruct (rs_no_loss n m hosts evs L OK) as [A B]. fold (reach n m hosts evs) in A, B. fold st in A, B.
+  pose proof (Inv_run evs _ (Inv_init n m hosts L) OK) as I. fold (reach n m hosts evs) in I. fold st in I.
+  split; [exact A|]. split; [exact B|]. split; [intros a E LA; exact (commit_names st a I E LA)|].
+  intros ev H. destruct ev; try reflexivity; exfalso; apply H; cbn [rstep];
+    repeat match goal with |- context [match ?x with _ => _ end] => destruct x end; reflexivity.
+Qed.
+
+Lemma rs_repair_progress : forall n m hosts evs, n <= length hosts ->
+  rs_ok_run rs_ok_ev (rs_init n m hosts) evs = true ->
+  let st := reach n m hosts evs in
+  (intact_named st + bad_named st = length (r_hosts st)) /\
+  (forall ev, abandons ev = true ->
+     r_hosts (rstep st ev) = r_hosts st /\ bad_named (rstep st ev) = bad_named st /\ intact_named (rstep st ev) = intact_named st) /\
+  (forall newids incs,
+     NoDup (r_hosts st) -> length (r_hosts st) = n + m ->
+     0 < bad_named st -> fresh (r_hosts st) newids = true -> distinctN newids = true -> length newids = bad_named st -> 0 < incs ->
+     let run := heal_run (length (r_hosts st)) newids incs in
+     rs_ok_run rs_ok_ev st run = true /\ forallb plain run = true /\
+     bad_named (rrun st run) = 0 /\ intact_named (rrun st run) = n + m /\ r_att (rrun st run) = None).
+Proof.
+  intros n m hosts evs L OK st.
+  pose proof (Inv_run evs _ (Inv_init n m hosts L) OK) as I. fold (reach n m hosts evs) in I. fold st in I.
+  assert (N : r_n st = n) by (unfold st, reach; rewrite n_run; reflexivity).
+  assert (M : r_m st = m) by (unfold st, reach; rewrite m_run; reflexivity).
+  split; [apply measure_sum|]. split; [intros ev AB; exact (abandoned_keeps_measure st ev I AB)|].
+  intros newids incs ND LH BN F DN LN LI run. rewrite <- N, <- M in LH.
+  destruct (heal_repairs st newids incs I ND LH BN F DN LN LI) as (A & B & C & D & E). rewrite N, M in D. auto.
+Qed.
+
+(* ------------------------------------------------------------------ instances (n = 2, m = 1, servers 1 2 3, spares 4 5) *)
+Definition rs_g0 : list rev :=
+  [EFault 3%N 2 false; EScrub 2; EDetect; EStart [4%N] 2; EInc false false; EInc false false; ECommit].
+(* an attempt that dies after a partial write, a lost reply, a leader change, a retry onto the same spare, and the
+   garbage collection of the replaced piece *)
+Definition rs_g2 : list rev :=
+  [EFault 3%N 2 true; EScrub 2; EDetect; EStart [4%N] 3; EInc false false; EInc true true;
+   EDetect; EStart [4%N] 1; EInc false false; EReplyLost;
+   ELeader; EScrub 2; EDetect; EStart [4%N] 2; EInc false false; EInc false false; ECommit;
+   EFault 1%N 0 false; EScrub 0; EDetect; EStart [5%N] 1; EInc false false; ECommit;
+   EGC 1%N 0; EDeliver 0].
+(* the commit under the premise as worded: a healthy named piece is believed down, the reconstruction completes, two
+   faults that respect "n intact named pieces" hit a source and the fresh piece, the commit names the damaged piece *)
+Definition rs_o5 : list rev :=
+  [EDown 3%N true; EDetect; EStart [4%N] 1; EInc false false; EFault 1%N 0 false; EFault 4%N 2 false].
+
+Lemma rs_examples :
+  let s0 := rs_init 2 1 [1; 2; 3]%N in
+  (rs_ok_run rs_ok_ev s0 rs_g0 = true /\ intact_named (rrun s0 (firstn 1 rs_g0)) = 2 /\ intact_named (rrun s0 rs_g0) = 3 /\
+   r_hosts (rrun s0 rs_g0) = [1; 2; 4]%N) /\
+  (rs_ok_run rs_ok_ev s0 rs_g2 = true /\
+   map (fun k => bad_named (rrun s0 (firstn k rs_g2))) [1; 6; 10; 11; 17; 18; 23; 25] = [1; 1; 1; 1; 0; 1; 0; 0] /\
+   r_hosts (rrun s0 rs_g2) = [5; 2; 4]%N /\ r_pc (rrun s0 rs_g2) 1%N 0 = None /\ r_pc (rrun s0 (firstn 6 rs_g2)) 4%N 2 = Some Partial) /\
+  (rs_ok_run rs_ok_ev_weak s0 rs_o5 = true /\ rs_ok_ev_weak (rrun s0 rs_o5) ECommit = true /\
+   rs_premise (rrun s0 rs_o5) = true /\ rs_premise (rstep (rrun s0 rs_o5) ECommit) = false /\
+   rs_ok_run rs_ok_ev s0 rs_o5 = false).
+Proof. vm_compute. repeat split; reflexivity. Qed.
+
+Lemma rs_commit_plain_premise_refuted :
+  exists n m hosts evs, n <= length hosts /\ rs_ok_run rs_ok_ev_weak (rs_init n m hosts) evs = true /\
+    rs_premise (reach n m hosts evs) = true /\ rs_ok_ev_weak (reach n m hosts evs) ECommit = true /\
+    intact_named (rstep (reach n m hosts evs) ECommit) < n.
+Proof. exists 2, 1, [1; 2; 3]%N, rs_o5. vm_compute. repeat split; auto. Qed.
